@@ -176,3 +176,34 @@ def replay(run, behs, seed, limit=None):
                     run.violation({"history": behs[n]["hist"], "headers": headers, "ops": ops}, r["expected"], r["observed"], r["why"])
     if behs:
         run.sample({"api_history": behs[len(behs) // 2]["hist"]})
+
+
+def fixed_cases(run):
+    """Two API uses outside the histories of RstWriter.tla: a DIRECTIVE's title is changed after options were added
+    (heading re-made, options and content stay, in order), and a page title that contains a line feed (the frame has
+    the title's length in characters)."""
+    from cminx.rstwriter import RSTWriter
+    for depth in (0, 1, 2):
+        w = RSTWriter("T")
+        holder = w
+        for k in range(depth):
+            holder = holder.directive("outer%d" % k, "x")
+        d = holder.directive("dir1", "arg1")
+        d.option("o1", "v1")
+        d.text("body line")
+        d.title = "dir2"
+        d.option("o2", "v2")
+        got = [l for l in w.to_text().split("\n") if l.strip()]
+        ind = "   " * depth
+        want_tail = [ind + ".. dir2:: arg1", ind + "   :o1: v1", ind + "   :o2: v2", ind + "   body line"]
+        run.count("directive-title-change:%d" % depth)
+        if got[-4:] != want_tail or w.to_text() != str(w):
+            run.violation({"api": "directive(...).option(); .text(); .title = ...; .option()", "depth": depth, "features": {"directive_title_change": True}},
+                          want_tail, got[-5:], "after a directive's title was changed its options or content are lost or out of order")
+    for title in ("two\nlines", "\n"):
+        text = RSTWriter(title).to_text()
+        run.count("title-with-line-feed:" + repr(title))
+        want = "\n" + "#" * len(title) + "\n" + title + "\n" + "#" * len(title) + "\n"
+        if text != want:
+            run.violation({"title": title, "features": {"title_with_line_feed": True}}, want, text,
+                          "the frame of a title does not have the title's length")
